@@ -28,7 +28,9 @@ static inline cplx op_div_cplx_cplx(cplx a, cplx b)
 static inline cplx op_div_double_cplx(double a, cplx b) { return op_div_cplx_cplx(cplx_ctor1(a), b); }
 static inline cplx *cplx_addassign(cplx *a, cplx b) { a->re = D_ADD(a->re, b.re); a->im = D_ADD(a->im, b.im); return a; }
 static inline cplx *cplx_subassign(cplx *a, cplx b) { a->re = D_SUB(a->re, b.re); a->im = D_SUB(a->im, b.im); return a; }
-static inline cplx *cplx_mulassign(cplx *a, cplx b) { *a = op_mul_cplx_cplx(*a, b); return a; }
+static inline cplx *cplx_mulassign_c(cplx *a, cplx b) { *a = op_mul_cplx_cplx(*a, b); return a; }
+static inline cplx *cplx_mulassign_d(cplx *a, double b) { *a = op_mul_cplx_double(*a, b); return a; }
+#define cplx_mulassign(a, b) _Generic((b), cplx: cplx_mulassign_c, default: cplx_mulassign_d)((a), (b))
 static inline cplx *cplx_assign(cplx *a, cplx b) { *a = b; return a; }
 static inline _Bool op_eq_cplx_cplx(cplx a, cplx b) { return D_EQ(a.re, b.re) && D_EQ(a.im, b.im); }
 #define C_SAME(a, b) (D_SAME((a).re, (b).re) && D_SAME((a).im, (b).im))
